@@ -171,6 +171,7 @@ def main(tier, seed, budget):
                 a.update(profile=True, profile_calls=True)
                 prof_jobs.append(dict(fn=JOB, args=a, timeout=1500))
         profiles = {}
+        prof_steps = {}
         for job, out in pool.imap(prof_jobs, timeout=1500):
             a = job['args']
             stats['profile_worlds'] += 1
@@ -183,6 +184,7 @@ def main(tier, seed, budget):
                 stats['ref_failed'].append([list(key), sorted(sigs_of(a, r))])   # fault-free run fails: C03/C13 business
                 continue
             profiles[key] = {i: rk['clock']['profile'] for i, rk in enumerate(r['ranks'])}
+            prof_steps[key] = r['steps']
             if a['P'] == 1:
                 pr = profiles[key][0]
                 stats['blocks_total'] += len(pr)
@@ -206,6 +208,7 @@ def main(tier, seed, budget):
                 a['eager'] = rng.choice([0.0, 0.5, 1.0])
             plan, desc = draw_plan(rng, profiles[key])
             a['plan'] = plan
+            a['max_steps'] = 40 * prof_steps[key] + 5000      # bounded liveness: "generation still completes"
             a['_desc'] = [list(map(str, d)) for d in desc]
             return dict(fn=JOB, args=a, timeout=1500)
 
